@@ -16,6 +16,8 @@
 (*           "gen"     G[int]:  v : int   (a specialised generic)          *)
 (*           "genraw"  G (unspecialised): v : Any                          *)
 (*           "miss"    w : int | Missing = MISSING                         *)
+(*           "deep"    rows : Sequence[Sequence[int]] ; idx : Mapping[str, Sequence[int]]    *)
+(*                     built from a TUPLE of lists and a dict of lists (mutable below the top) *)
 (* Values are small integers; containers hold 1..n.                        *)
 (***************************************************************************)
 EXTENDS Naturals, Sequences, FiniteSets, TLC
@@ -42,7 +44,7 @@ Op == nops < MaxOps /\ nops' = nops + 1
 Construct(c, v) ==
   /\ Op /\ Len(heap) < MaxObjs
   /\ (c = "miss" => v \in {0, 1}) /\ (c # "miss" => v \in {1, 2})
-  /\ heap' = Append(heap, Obj(c, v, IF c = "cont" THEN v ELSE 0))
+  /\ heap' = Append(heap, Obj(c, v, IF c \in {"cont", "deep"} THEN v ELSE 0))
   /\ obs' = O(<<"new", Len(heap')>>)
 
 (* assignment or deletion of an existing or a new attribute: rejected, nothing changes *)
@@ -53,7 +55,7 @@ Poke(i, how) ==
 
 (* the list / set / dict originally passed to the constructor are mutated afterwards *)
 MutateInput(i) ==
-  /\ Op /\ i \in DOMAIN heap /\ heap[i].cls = "cont" /\ heap[i].ext > 0   \* only instances built from external containers
+  /\ Op /\ i \in DOMAIN heap /\ heap[i].cls \in {"cont", "deep"} /\ heap[i].ext > 0   \* only instances built from external containers
   /\ heap' = [heap EXCEPT ![i].ext = @ + 1,
                           ![i].val = IF Bug = "shares_input" THEN @ + 1 ELSE @]
   /\ obs' = O(<<"mutated", i>>)
